@@ -1,5 +1,6 @@
 import LexgenModel.Proofs.MaxMunch
 import LexgenModel.Proofs.NextProtocol
+import LexgenModel.Proofs.RefRefine
 /-!
 # C07 — Errors are raised exactly when nothing matches and point at the lexeme start
 -/
@@ -48,5 +49,16 @@ theorem C07_custom_location (cfg : Config σ τ ε) (a : Nat) (st : LState σ) (
       refine ⟨rfl, ?_⟩
       rw [← hl]
       cases hreset : eff.reset <;> cases hsw : eff.switchTo <;> simp [hreset, hsw]
+
+/-- Errors at the language level: every call is a step of the reference lexer; its `invalid` constructor fires only when NO rule
+of the active rule set matches any prefix of the remaining input (and it is not the end of the stream), reports the start of the
+current match and leaves `ErrResume`; whenever some rule matches, `ret`/`cont` run that rule's action instead. -/
+theorem C07_refines_reference (items : LexerDef) (c : Compiled) (h : compileLexer items = .ok c) (hok : DefOK items)
+    (ctxAt : Nat → Regex) (hnum : CtxNumbering items ctxAt)
+    (actions : Nat → Action σ τ ε) (width : Nat → Nat) (input : Option (List Nat))
+    (st : LState σ) (hr : Ready (c.config actions width input) st)
+    (r : Option (Item τ ε) × LState σ) (hn : next (c.config actions width input) st = some r) :
+    RefNext items c ctxAt (c.config actions width input) st r :=
+  next_refines_ref items c h hok ctxAt hnum actions width input st hr r hn
 
 end Lexgen
